@@ -5,8 +5,6 @@ C36 — property theorems about the model of cppcheck-htmlreport (after fix b935
 namespace Cppcheck.Html
 open List
 
-def special (c : Char) : Bool := c = '<' || c = '>' || c = '"' || c = '\''
-
 /-- escaped text carries no markup character: `<`, `>` and both quotes never survive -/
 theorem escape_no_markup (s : Str) : ∀ c ∈ htmlEscape s, special c = false := by
   intro c hc
@@ -65,14 +63,6 @@ theorem row_file (es : List Err) : ∀ r ∈ indexRows es, r.err.file = r.group.
   have he' : e ∈ g.errs := (stableSort_perm _ _).subset he
   exact groupsAux_file es [] (by simp) g hg' e he'
 
-/-- the message column is the escaped message; the markup around it does not depend on the message -/
-theorem row_message_escaped (g : Group) (d rt : Bool) (ts : Str) (e : Err) (m : Str) :
-    rowHtml g d rt ts { e with msg := m } = rowPre g d rt e ++ htmlEscape m ++ rowPost ts := rfl
-
-theorem mem_ite_append {c : Char} {b : Bool} {a v : Str} (h : c ∈ (if b = true then a ++ v else v)) :
-    c ∈ a ∨ c ∈ v := by
-  cases b <;> simp_all
-
 /-- the class attribute derived from the id is markup-free -/
 theorem css_no_markup (s : Str) : ∀ c ∈ toCssSelector s, special c = false := by
   intro c hc
@@ -94,8 +84,284 @@ theorem css_no_markup (s : Str) : ∀ c ∈ toCssSelector s, special c = false :
     rcases hc with h | h | h <;> subst h <;> decide
   · exact hv c hc
 
+/-! ### every column of an index row (M2) -/
+
+/-- shape lemma: the message cell is the escaped message; nothing else in the row depends on the message -/
+theorem row_message_cell (g : Group) (d rt : Bool) (ts : Str) (e : Err) :
+    ∃ pre post, ∀ m, rowPieces g d rt ts { e with msg := m } = pre ++ [.esc m] ++ post := by
+  refine ⟨[L "<tr class=\"", .css e.id, L " sev_", .esc (shownSeverity rt e), L " class_", .esc (shownCls rt e), L " issue\">"]
+      ++ (rowCells g d rt e).flatMap tdP
+      ++ msgOpen e,
+   [L "</td>"] ++ (if ts = [] then [] else [L "<td>", .raw ts, L "</td>"]) ++ [L "</tr>"], ?_⟩
+  intro m
+  have h1 : rowCells g d rt { e with msg := m } = rowCells g d rt e := rfl
+  have h2 : msgOpen { e with msg := m } = msgOpen e := rfl
+  have h3 : shownSeverity rt { e with msg := m } = shownSeverity rt e := rfl
+  have h4 : shownCls rt { e with msg := m } = shownCls rt e := rfl
+  simp only [rowPieces, h1, h2, h3, h4, List.append_assoc, List.cons_append, List.nil_append]
+
+/-- the second cell of every row is the escaped id -/
+theorem row_id_cell (g : Group) (d rt : Bool) (e : Err) : (rowCells g d rt e)[1]? = some [.esc e.id] := by
+  simp [rowCells]
+
+/-- the third cell is the cwe link (escaped cwe, twice) or empty -/
+theorem row_cwe_cell (g : Group) (d rt : Bool) (e : Err) : (rowCells g d rt e)[2]? = some (cweCell e) := by
+  simp [rowCells]
+
+/-- **line**: when the group is a file whose source could be decoded, the first cell is the line number of the
+    finding's first location, linked to the anchor of that line on the file's page -/
+theorem row_line_cell (g : Group) (d rt : Bool) (e : Err) (h : isFileGroup g d = true) :
+    (rowCells g d rt e)[0]? =
+      some [L "<a href=\"", .num g.no, L ".html#line-", .num e.line, L "\">", .num e.line, L "</a>"] := by
+  simp [rowCells, h]
+
+/-- … and it is EMPTY for a finding whose source file is undecodable, starred, or that has no location: the line
+    number is nowhere in the row (finding F36c for the undecodable / starred case) -/
+theorem row_line_cell_nofile (g : Group) (d rt : Bool) (e : Err) (h : isFileGroup g d = false) :
+    (rowCells g d rt e)[0]? = some [] := by
+  simp [rowCells, h]
+
+theorem row_line_undecodable_counterexample :
+    ¬ ∀ (g : Group) (d rt : Bool) (ts : Str) (e : Err), e ∈ g.errs → e.locs ≠ [] → .num e.line ∈ rowPieces g d rt ts e := by
+  intro h
+  have := h ⟨"bad.c".toList, 0, [⟨"i".toList, "style".toList, "m".toList, none, none, none, [], [], [⟨"bad.c".toList, 7, none⟩]⟩]⟩
+    true false [] ⟨"i".toList, "style".toList, "m".toList, none, none, none, [], [], [⟨"bad.c".toList, 7, none⟩]⟩ (by simp) (by simp)
+  exact absurd this (by decide)
+
+/-- **severity**: in a report without classifications the fourth cell is the escaped severity (with `, inconcl.`
+    appended for an inconclusive finding), provided the severity is not the empty string -/
+theorem row_severity_cell (g : Group) (d : Bool) (e : Err) (h : sev0 e ≠ []) :
+    (rowCells g d false e)[3]? = some [.esc (sev0 e)] := by
+  simp [rowCells, shownSeverity, h]
+
+/-- … and in a classification report (any finding of the file carries a classification) NO row shows its severity:
+    the fourth and fifth cells are classification and guideline (finding F36b) -/
+theorem row_classification_cells (g : Group) (d : Bool) (e : Err) :
+    (rowCells g d true e)[3]? = some [.esc (shownCls true e)] ∧ (rowCells g d true e)[4]? = some [.esc (shownGuide true e)] ∧
+    (rowCells g d true e).length = 5 := by
+  have h : shownCls true e ≠ [] := by
+    simp only [shownCls, if_true]; split <;> simp_all
+  simp [rowCells, shownSeverity, h]
+
+theorem row_severity_classification_counterexample :
+    ¬ ∀ (g : Group) (d rt : Bool) (ts : Str) (e : Err), .esc (sev0 e) ∈ rowPieces g d rt ts e := by
+  intro h
+  have := h ⟨"a.c".toList, 0, []⟩ false true [] ⟨"i".toList, "style".toList, "m".toList, none, none, none, [], [], [⟨"a.c".toList, 7, none⟩]⟩
+  exact absurd this (by decide)
+
+/-- classification and guideline columns of a report without classifications: shown iff the finding has one -/
+theorem row_cells_length (g : Group) (d rt : Bool) (e : Err) :
+    (rowCells g d rt e).length = 3 + (if shownSeverity rt e ≠ [] then 1 else 0) + (if shownCls rt e ≠ [] then 2 else 0) := by
+  simp only [rowCells, List.length_append, List.length_cons, List.length_nil]
+  split <;> split <;> simp
+
+/-! ### per-file pages (M1) -/
+
+/-- **the entries of a per-file page**: every finding of the group is listed once PER LOCATION that lies in the
+    file (in the order of the results file) — not once per finding -/
+theorem page_entries (g : Group) :
+    (pageLocs g).map (·.1) = g.errs.flatMap fun e => List.replicate (e.locs.filter (fun l => l.file = g.file)).length e := by
+  simp only [pageLocs, List.map_flatMap, List.map_map]
+  congr 1
+  funext e
+  induction (e.locs.filter fun l => l.file = g.file) with
+  | nil => rfl
+  | cons l r ih => simp [List.replicate_succ, ih]
+
+/-- the menu of the page lists exactly these entries (sorted by line, stable) -/
+theorem menu_entries_perm (g : Group) :
+    stableSort (fun (a b : Err × Loc) => a.2.line < b.2.line) (pageLocs g) ~ pageLocs g := stableSort_perm _ _
+
+/-- **no finding is missing from the page of its file**: every finding with a location is listed on the page of
+    the file of its first location, at the line of that location -/
+theorem page_lists_every_finding (es : List Err) (g : Group) (hg : g ∈ sortedGroups es) (e : Err) (he : e ∈ g.errs)
+    (hl : e.locs ≠ []) : ∃ l, (e, l) ∈ pageLocs g ∧ l.line = e.line ∧ l.file = g.file := by
+  have hg' : g ∈ groups es := (stableSort_perm _ _).subset hg
+  have hf : e.file = g.file := groupsAux_file es [] (by simp) g hg' e he
+  cases hloc : e.locs with
+  | nil => exact absurd hloc hl
+  | cons l r =>
+    refine ⟨l, ?_, by simp [Err.line, hloc], by simpa [Err.file, hloc] using hf⟩
+    simp only [pageLocs, List.mem_flatMap, List.mem_map, List.mem_filter, decide_eq_true_eq]
+    refine ⟨e, he, l, ⟨by simp [hloc], by simpa [Err.file, hloc] using hf⟩, rfl⟩
+
+/-- "every finding appears exactly once" is FALSE of the per-file pages: a finding with two locations in one file has
+    two entries (menu and annotations) on that file's page (finding F36a) -/
+theorem page_exactly_once_counterexample :
+    ¬ ∀ (es : List Err) (g : Group), g ∈ sortedGroups es → (pageLocs g).length = g.errs.length := by
+  intro h
+  let e1 : Err := ⟨"idA".toList, "style".toList, "m".toList, none, none, none, [], [], [⟨"a.c".toList, 3, none⟩, ⟨"a.c".toList, 9, none⟩]⟩
+  have := h [e1] ⟨"a.c".toList, 0, [e1]⟩ (by simp [sortedGroups, groups, groupsAux, addErr, stableSort, insertFront, e1, Err.file])
+  exact absurd this (by decide)
+
+/-- … and TRUE when every finding of the group has exactly one location in the group's file: the entries of the
+    page are exactly the findings of the group, each once, in the order of the results file -/
+theorem page_exactly_once_partial (g : Group)
+    (h : ∀ e ∈ g.errs, (e.locs.filter (fun l => l.file = g.file)).length = 1) :
+    (pageLocs g).map (·.1) = g.errs := by
+  rw [page_entries]
+  have : ∀ l : List Err, (∀ e ∈ l, (e.locs.filter (fun l => l.file = g.file)).length = 1) →
+      (l.flatMap fun e => List.replicate (e.locs.filter (fun l => l.file = g.file)).length e) = l := by
+    intro l
+    induction l with
+    | nil => intro _; rfl
+    | cons e r ih =>
+      intro hh
+      simp only [List.flatMap_cons, hh e (by simp), List.replicate_one, List.singleton_append]
+      rw [ih (fun x hx => hh x (by simp [hx]))]
+  exact this _ h
+
+/-- **the annotation of an entry carries its escaped message** (the `info` of the location when it has one):
+    whenever the finding has no `inconclusive` attribute or it is `true` -/
+theorem annot_shows_message (p : PageErr) (h : p.err.inconclusive = none ∨ p.err.inconclusive = some "true".toList) :
+    ∃ b ps, annotPieces p = some (b, ps) ∧ .esc p.msg ∈ ps := by
+  unfold annotPieces
+  rcases h with h | h <;> rw [h] <;> cases p.expandable <;> simp
+
+/-- … and there is NO annotation when the attribute is present with any other value (finding F36d; cppcheck itself
+    only ever writes `inconclusive="true"`) -/
+theorem annot_missing_counterexample :
+    ¬ ∀ p : PageErr, (annotPieces p).isSome = true := by
+  intro h
+  have := h ⟨⟨"i".toList, "style".toList, "m".toList, none, some "false".toList, none, [], [], []⟩, 3, "m".toList, none⟩
+  exact absurd this (by decide)
+
+/-- a line with a single entry: what is written behind the line is exactly that entry's annotation -/
+theorem lineAnnot_single (g : Group) (n : Nat) (p : PageErr) (b : Bool) (x : List Piece)
+    (h1 : (pageErrs g).filter (fun q => q.line = n) = [p]) (h2 : annotPieces p = some (b, x)) :
+    lineAnnot g n = render x := by
+  simp only [lineAnnot, h1, annotateLine, List.foldl_cons, List.foldl_nil, h2]
+  cases b
+  · simp [replaceNl]
+  · simp [replaceLastNl, List.idxOf?]
+
+/-- only source lines exist on a page: an entry whose line is 0 or beyond the end of the file is in the menu but
+    has no annotation (`lineAnnot` is consulted for the lines 1..N of the source only) -/
+theorem lineAnnot_none (g : Group) (n : Nat) (h : ∀ p ∈ pageErrs g, p.line ≠ n) : lineAnnot g n = ['\n'] := by
+  have : (pageErrs g).filter (fun q => q.line = n) = [] := by
+    simp only [List.filter_eq_nil_iff, decide_eq_true_eq]; exact h
+  simp [lineAnnot, this, annotateLine]
+
+/-! ### whole-output injection freedom (M4) -/
+
+/-- every literal the templates of the script contribute to rows, file rows, menus and annotations -/
+def templateLits : List Str := [
+  "<tr class=\"", " sev_", " class_", " issue\">", "<td>", "</td>", "<td class=\"", "\">", "error", "warning", "inconclusive",
+  "</tr>", "<a href=\"", ".html#line-", "</a>", "<a href=\"https://cwe.mitre.org/data/definitions/", ".html\">",
+  "<tr><td colspan=\"6\">", "</td></tr>", "\"> ", " ",
+  "<div class=\"verbose expandable\"><span class=\"", "<span class=\"", "error2", "inconclusive2", "\">&lt;--- ",
+  " <span class=\"marker\">[+]</span></span><div class=\"content\">", "</div></div>\n", "</span>\n"].map String.toList
+
+/-- a piece is harmless: a literal of the templates, the time stamp of the results file (`time.ctime`, not a string
+    of the results file), or an encoded string whose rendering is `wellEscaped` -/
+def Piece.ok (ts : Str) : Piece → Bool
+  | .lit s => templateLits.contains s
+  | .raw s => s == ts
+  | p => wellEscaped p.render
+
+/-- the encoded pieces are harmless whatever string of the results file they carry -/
+theorem dynamic_ok (ts : Str) : (∀ s, (Piece.esc s).ok ts = true) ∧ (∀ s, (Piece.css s).ok ts = true) ∧ (∀ n, (Piece.num n).ok ts = true) :=
+  ⟨fun s => escape_wellEscaped s, fun s => plain_wellEscaped _ (css_plain s), fun n => plain_wellEscaped _ (natStr_plain n)⟩
+
+macro "piece_ok" : tactic =>
+  `(tactic| first | exact escape_wellEscaped _ | exact plain_wellEscaped _ (css_plain _) | exact plain_wellEscaped _ (natStr_plain _) | rfl)
+
+macro "all_ok" : tactic =>
+  `(tactic| (simp only [List.all_append, List.all_cons, List.all_nil, Bool.and_true, Bool.and_eq_true]
+             <;> (repeat' constructor) <;> piece_ok))
+
+/-- **no string of the results file reaches a finding row unencoded**: `rowHtml` is the rendering of pieces each of
+    which is a fixed template literal, the time stamp, or an `html_escape`d / `to_css_selector`ed / decimal value —
+    for every finding, group, flag and time stamp -/
+theorem row_injection_free (g : Group) (d rt : Bool) (ts : Str) (e : Err) :
+    rowHtml g d rt ts e = render (rowPieces g d rt ts e) ∧ (rowPieces g d rt ts e).all (Piece.ok ts) = true := by
+  refine ⟨rfl, ?_⟩
+  have hcell : ∀ c ∈ rowCells g d rt e, (tdP c).all (Piece.ok ts) = true := by
+    intro c hc
+    simp only [rowCells, List.mem_append, List.mem_cons, List.not_mem_nil, or_false] at hc
+    rcases hc with ((rfl | rfl | rfl) | hc) | hc
+    · split <;> simp only [tdP] <;> all_ok
+    · simp only [tdP]; all_ok
+    · unfold cweCell; split
+      · split <;> simp only [tdP] <;> all_ok
+      · simp only [tdP]; all_ok
+    · split at hc
+      · simp only [List.mem_cons, List.not_mem_nil, or_false] at hc; subst hc; simp only [tdP]; all_ok
+      · simp at hc
+    · split at hc
+      · simp only [List.mem_cons, List.not_mem_nil, or_false] at hc
+        rcases hc with rfl | rfl <;> simp only [tdP] <;> all_ok
+      · simp at hc
+  have hcells : ((rowCells g d rt e).flatMap tdP).all (Piece.ok ts) = true := by
+    rw [List.all_flatMap, List.all_eq_true]; exact hcell
+  have h1 : (msgOpen e).all (Piece.ok ts) = true := by
+    unfold msgOpen
+    cases messageClass e with
+    | none => all_ok
+    | some c => cases c <;> simp only [MsgClass.name] <;> all_ok
+  have h2 : (if ts = [] then [] else [L "<td>", Piece.raw ts, L "</td>"]).all (Piece.ok ts) = true := by
+    split
+    · rfl
+    · simp only [List.all_cons, List.all_nil, Bool.and_true, Bool.and_eq_true]
+      refine ⟨rfl, ?_, rfl⟩
+      simp [Piece.ok]
+  simp only [rowPieces, List.all_append, hcells, h1, h2, Bool.and_true, Bool.true_and]
+  all_ok
+
+theorem fileRow_injection_free (g : Group) (d : Bool) (ts : Str) :
+    fileRowHtml g d = render (fileRowPieces g d) ∧ (fileRowPieces g d).all (Piece.ok ts) = true := by
+  refine ⟨rfl, ?_⟩
+  simp only [fileRowPieces]
+  split <;> all_ok
+
+theorem menu_injection_free (g : Group) (ts : Str) :
+    menuHtml g = render (menuPieces g) ∧ (menuPieces g).all (Piece.ok ts) = true := by
+  refine ⟨rfl, ?_⟩
+  simp only [menuPieces, List.all_flatMap, List.all_eq_true]
+  intro p _
+  have : (menuEntryPieces g p).all (Piece.ok ts) = true := by simp only [menuEntryPieces]; all_ok
+  exact List.all_eq_true.mp this
+
+/-- the annotation written into a per-file page (the place of F13): message, location info and verbose text only
+    ever appear `html_escape`d inside fixed markup -/
+theorem annot_injection_free (p : PageErr) (ts : Str) (b : Bool) (x : List Piece) (h : annotPieces p = some (b, x)) :
+    x.all (Piece.ok ts) = true := by
+  unfold annotPieces at h
+  simp only at h
+  split at h
+  · simp at h
+  · rename_i c hc
+    have hcl : c = "error2" ∨ c = "inconclusive2" := by
+      split at hc
+      · split at hc <;> simp at hc; exact Or.inr hc.symm
+      · simp at hc; exact Or.inl hc.symm
+    split at h <;> simp only [Option.some.injEq, Prod.mk.injEq] at h <;> obtain ⟨_, rfl⟩ := h <;>
+      rcases hcl with rfl | rfl <;> all_ok
+
+/-- what `Piece.ok` buys: the rendering of an encoded piece contains none of `<`, `>`, `"`, `'` -/
+theorem wellEscaped_no_markup : ∀ s : Str, wellEscaped s = true → ∀ c ∈ s, special c = false := by
+  intro s
+  induction s using wellEscaped.induct with
+  | case1 r ih => intro h c hc; simp only [wellEscaped] at h; simp only [List.mem_cons] at hc; rcases hc with rfl | rfl | rfl | rfl | rfl | hc <;> first | decide | exact ih h c hc
+  | case2 r ih => intro h c hc; simp only [wellEscaped] at h; simp only [List.mem_cons] at hc; rcases hc with rfl | rfl | rfl | rfl | hc <;> first | decide | exact ih h c hc
+  | case3 r ih => intro h c hc; simp only [wellEscaped] at h; simp only [List.mem_cons] at hc; rcases hc with rfl | rfl | rfl | rfl | hc <;> first | decide | exact ih h c hc
+  | case4 r ih => intro h c hc; simp only [wellEscaped] at h; simp only [List.mem_cons] at hc; rcases hc with rfl | rfl | rfl | rfl | rfl | rfl | hc <;> first | decide | exact ih h c hc
+  | case5 r ih => intro h c hc; simp only [wellEscaped] at h; simp only [List.mem_cons] at hc; rcases hc with rfl | rfl | rfl | rfl | rfl | rfl | hc <;> first | decide | exact ih h c hc
+  | case6 c0 r _ _ _ _ _ ih =>
+    intro h c hc
+    rw [wellEscaped.eq_def] at h
+    split at h <;> simp_all [plain]
+    all_goals (rcases hc with rfl | hc <;> simp_all)
+  | case7 => intro _ c hc; simp at hc
+
 /-! non-vacuity / concrete instances -/
 example : htmlEscape "a<b>&\"c'".toList = "a&lt;b&gt;&amp;&quot;c&apos;".toList := by decide
 example : unescape "x &amp;lt; y".toList = "x &lt; y".toList := by decide
+-- a finding with two locations in a.c: two menu entries; classification report: no severity cell
+example : (pageLocs ⟨"a.c".toList, 0, [⟨"idA".toList, "style".toList, "m".toList, none, none, none, [], [],
+    [⟨"a.c".toList, 3, none⟩, ⟨"a.c".toList, 9, none⟩]⟩]⟩).length = 2 := by decide
+example : isFileGroup ⟨"a.c".toList, 0, []⟩ false = true := by decide
+example : sev0 ⟨"i".toList, "style".toList, "m".toList, none, some "true".toList, none, [], [], []⟩ = "style, inconcl.".toList := by decide
 
 end Cppcheck.Html
+
